@@ -634,6 +634,55 @@ def r28_strip_complete(ctx):
         isinstance(g.target, ast.Name) and nonempty_filter(c, g.target.id) for g in n.generators for c in g.ifs)]
     ctx.check(bool(drops), R, f.node, f, 'ranks left empty by the strip are dropped', unparse(drops[0]) if drops else '',
               'no statement drops empty ranks', nontrivial=False)
+    # what the ballot is taken to be (equal rankings or not, empty or not) is decided on the STRIPPED ranks: every size test on a rank
+    # (`len(rank) > 1`) comes after the strip on every path - apart from paths on which the withdrawn set is empty, where there was
+    # nothing to strip.  (A rank [withdrawn, x] is the single preference x, not an equal ranking.)
+    cfg = cfg_of(f)
+    strip_nodes = set()
+    for n in f.own_nodes():
+        if isinstance(n, ast.Compare) and len(n.ops) == 1 and isinstance(n.ops[0], ast.NotIn) and unparse(n.comparators[0]).endswith('.withdrawn'):
+            st_ = repo.enclosing_stmt(n)
+            while st_ is not None and st_ not in cfg.of_stmt:
+                st_ = getattr(st_, 'parent', None)
+            if st_ is not None:
+                strip_nodes.add(cfg.of_stmt[st_])
+
+    def edge_ok(a, b, lab):
+        # the edge on which the withdrawn set is known to be empty needs no strip
+        if a.kind == 'test' and isinstance(a.ast, ast.If):
+            t = a.ast.test
+            if isinstance(t, ast.Attribute) and t.attr == 'withdrawn' and lab is False:
+                return False
+            if isinstance(t, ast.UnaryOp) and isinstance(t.op, ast.Not) and isinstance(t.operand, ast.Attribute) and t.operand.attr == 'withdrawn' and lab is True:
+                return False
+        return True
+    # a strip inside `for rank in ranking:` - the loop as a whole is the strip: what follows the loop is "after", the part of an
+    # iteration that precedes the strip statement is "before"
+    heads = set()
+    for sn in strip_nodes:
+        lp = getattr(sn.ast, 'parent', None)
+        while lp is not None and not isinstance(lp, (ast.For, ast.FunctionDef)):
+            lp = getattr(lp, 'parent', None)
+        if isinstance(lp, ast.For) and lp in cfg.of_stmt:
+            heads.add(cfg.of_stmt[lp])
+    early = cfg.reach([cfg.entry], avoid=strip_nodes | heads, edge_ok=edge_ok, include_start=True)
+    if heads and cfg.entry not in heads:
+        body_starts = [t_ for h_ in heads for t_, lab_ in h_.succ if lab_ is True and h_ in cfg.reach([cfg.entry], avoid=strip_nodes, edge_ok=edge_ok, include_start=True)]
+        early |= cfg.reach(body_starts, avoid=strip_nodes | heads, edge_ok=edge_ok, include_start=True) - strip_nodes
+    for n in f.own_nodes():
+        if isinstance(n, ast.Compare) and len(n.ops) == 1 and isinstance(n.ops[0], (ast.Gt, ast.GtE)) and isinstance(n.left, ast.Call) \
+                and isinstance(n.left.func, ast.Name) and n.left.func.id == 'len' and isinstance(n.comparators[0], ast.Constant) \
+                and n.comparators[0].value in (1, 2):
+            st_ = repo.enclosing_stmt(n)
+            while st_ is not None and st_ not in cfg.of_stmt:
+                st_ = getattr(st_, 'parent', None)
+            if st_ is None:
+                continue
+            node_ = cfg.of_stmt[st_]
+            # a size test in the very statement / loop body that strips (after the in-place strip of that rank) is fine: it is not "early"
+            ctx.check(node_ not in early or node_ in strip_nodes, R, n, f, 'a ballot is classified as having equal rankings by its ranks as they are AFTER withdrawn candidates were removed',
+                      '`%s` is evaluated after the strip on every path' % unparse(n),
+                      '`%s` can be evaluated before the withdrawn candidates are stripped: a rank [withdrawn, x] makes the ballot an equal-ranking ballot' % unparse(n))
 
 
 # ---------------------------------------------------------------------------
